@@ -26,7 +26,11 @@ EXTENDS GrpcCall
 
 CONSTANTS
   ReqStreamC, RespStreamC,
-  NS, NR, NH, MaxCancel, CancelKinds, MaxHdr, MaxTrl, Statuses, Closers, Known
+  NS, NR, NH, MaxCancel, CancelKinds, MaxHdr, MaxTrl, Statuses, Closers, Known,
+  OverrunN,     \* 0, or the number of unread request frames at which net/http stops waiting for the end of the request
+                \* (more than 256 KiB unread: it answers at once and drops the connection after the reply)
+  DrainFirst    \* FALSE: doHttpCall as it is; TRUE: as it was before the repair of KF-23 (the rest of the reply is
+                \* drained before the end of the call is published) -- a vacuity guard, see C05_NoStuck
 
 VARIABLES
   \* the wire
@@ -168,9 +172,12 @@ SendWrite ==
           /\ Goto("cs", "s4")
           /\ UNCHANGED <<wErr, wMu>> /\ UNCHANGED vars /\ NoViol /\ Quiet
      ELSE \* pipe closed: by CloseSend (misuse), by the completion defer, or by the watcher
+          \* (a failed write looks at cs.done, under rMu: a send interrupted by the end
+          \* of the call is a send after the end -- the repair of KF-24)
+          /\ RMuFree
           /\ wErr' = TRUE /\ wMu' = "" /\ UNCHANGED reqWire
           /\ Goto("cs", "idle")
-          /\ LET r == IF pipe = "rclosed-ctx" THEN CtxRes ELSE ROther IN
+          /\ LET r == IF done THEN REof ELSE IF pipe = "rclosed-ctx" THEN CtxRes ELSE ROther IN
                Ev_CSendRet(cSendStarted, r) /\ Viol(Chk_CSendRet(cSendStarted, r)) /\ Emit("CSendRet", cSendStarted, r, 0, <<>>)
   /\ UNCHANGED <<reqEnd, respHdr, respWire, respEnd, gone, ready, hd, hdErr, done, rErr, ctr, pipe,
                  icancel, rdpc, offer, localErr, srecvd, headersSent, snap, flushed, bodyShut, wbroken, writeFailed, strl, shdr,
@@ -185,9 +192,9 @@ SendRet ==
   /\ Goto("cs", "idle") /\ wMu' = ""
   /\ \/ /\ UNCHANGED wErr
         /\ Ev_CSendRet(cSendStarted, RNil) /\ Viol(Chk_CSendRet(cSendStarted, RNil)) /\ Emit("CSendRet", cSendStarted, RNil, 0, <<>>)
-     \/ /\ pipe \in {"rclosed", "rclosed-ctx"}
+     \/ /\ pipe \in {"rclosed", "rclosed-ctx"} /\ RMuFree
         /\ wErr' = TRUE
-        /\ LET r == IF pipe = "rclosed-ctx" THEN CtxRes ELSE ROther IN
+        /\ LET r == IF done THEN REof ELSE IF pipe = "rclosed-ctx" THEN CtxRes ELSE ROther IN
              Ev_CSendRet(cSendStarted, r) /\ Viol(Chk_CSendRet(cSendStarted, r)) /\ Emit("CSendRet", cSendStarted, r, 0, <<>>)
   /\ UNCHANGED <<reqWire, reqEnd, respHdr, respWire, respEnd, gone, ready, hd, hdErr, done, rErr, ctr, pipe,
                  icancel, rdpc, offer, localErr, srecvd, headersSent, snap, flushed, bodyShut, wbroken, writeFailed, strl, shdr,
@@ -314,6 +321,10 @@ DeliverCtx ==
 \* the completion defer: rErr, done, close the pipe reader, close rCh
 ReaderFin ==
   /\ rdpc = "fin"
+  \* (before the repair of KF-23 the rest of the reply was drained first, i.e.
+  \* this step waited for the server to end its reply -- with rMu held if the
+  \* trailer had been read)
+  /\ DrainFirst /\ ready /\ ~hdErr => respEnd = "eof"
   /\ rdpc' = "done" /\ done' = TRUE
   /\ pc' = [pc EXCEPT !["cr"] = IF @ = "r2b" THEN "r2x" ELSE IF @ = "r3b" THEN "r3x" ELSE @]
   /\ rErr' = IF rErr # "none" THEN rErr
@@ -483,7 +494,8 @@ HRunning == hState = "running" /\ pc["h"] = "idle"
 CanWrite == ~gone
 \* net/http: before the first reply bytes go out the server consumes the rest
 \* of the request body, i.e. it waits for its end
-CanFlushFirst == reqEnd # "open"
+\* -- unless there is more of it than the server is prepared to swallow
+CanFlushFirst == reqEnd # "open" \/ (OverrunN > 0 /\ Len(reqWire) >= OverrunN)
 
 StartHRecv ==
   /\ HRunning /\ bud["h"] > 0
@@ -640,18 +652,30 @@ HReturnDo(s) ==
                  icancel, rdpc, offer, localErr, wMu, srecvd, headersSent, snap, flushed, bodyShut, wbroken, writeFailed, strl, shdr,
                  got, bud, ncancel, nhdr, ntrl>>
 
-\* the tail of handleStream: the trailer frame (unless a write failed before), then ServeHTTP returns
+\* the tail of handleStream: the trailer frame (unless a write failed before) ...
 Tail1 ==
   /\ pc["h"] = "tl"
   /\ IF writeFailed
        THEN UNCHANGED <<respWire, respHdr, writeFailed, flushed, bodyShut, wbroken, reqWire>>
        ELSE \E ok \in BOOLEAN : WireOut(FT(tmp["h"], strl), ok)
   /\ snap' = IF snap = NoHdr THEN shdr ELSE snap
+  /\ Goto("h", "tl2")
+  /\ UNCHANGED vars /\ NoViol /\ Quiet
+  /\ UNCHANGED <<reqEnd, respEnd, gone, ready, hd, hdErr, done, rErr, ctr, wErr, pipe,
+                 icancel, rdpc, offer, localErr, wMu, srecvd, headersSent, strl, shdr,
+                 tmp, got, bud, ncancel, nhdr, ntrl>>
+
+\* ... then the deferred drainAndClose(r.Body) reads the request body to its
+\* end (or to the error that ends it), and ServeHTTP returns: the reply ends.
+\* When the reply went out before the end of the request (OverrunN) this waits
+\* for the client.
+Tail2 ==
+  /\ pc["h"] = "tl2" /\ reqEnd # "open"
   /\ respEnd' = "eof"
   /\ Goto("h", "done")
   /\ UNCHANGED vars /\ NoViol /\ Quiet
-  /\ UNCHANGED <<reqEnd, gone, ready, hd, hdErr, done, rErr, ctr, wErr, pipe,
-                 icancel, rdpc, offer, localErr, wMu, srecvd, headersSent, strl, shdr,
+  /\ UNCHANGED <<reqWire, reqEnd, respHdr, respWire, gone, ready, hd, hdErr, done, rErr, ctr, wErr, pipe,
+                 icancel, rdpc, offer, localErr, wMu, srecvd, headersSent, snap, flushed, bodyShut, wbroken, writeFailed, strl, shdr,
                  tmp, got, bud, ncancel, nhdr, ntrl>>
 
 -----------------------------------------------------------------------------
@@ -684,7 +708,7 @@ Next ==
   \/ StartHRecv \/ HRecvRead \/ HRecvProbe
   \/ StartHSend \/ HSendDo \/ HSendRet \/ HSetHeader(TRUE) \/ HSetHeader(FALSE) \/ HSetHeaderE(TRUE) \/ HSetHeaderE(FALSE) \/ SetTrailerDo
   \/ \E s \in Statuses : HReturnDo(s)
-  \/ Tail1
+  \/ Tail1 \/ Tail2
   \/ \E w \in CancelKinds : Cancel(w)
   \/ Terminated
 
@@ -704,7 +728,7 @@ Fair ==
   /\ WF_allvars(RecvCheckDone \/ RecvSelect \/ RecvProbe \/ RecvWoken \/ RecvSecond)
   /\ WF_allvars(HRecvRead \/ HRecvProbe)
   /\ WF_allvars(HSendDo \/ HSendRet)
-  /\ WF_allvars(Tail1)
+  /\ WF_allvars(Tail1 \/ Tail2)
 
 FairSpec == Spec /\ Fair
 
@@ -728,9 +752,12 @@ ClientParked ==
 Progress ==
   \/ ENABLED RtReply \/ ENABLED RtCancelled \/ ENABLED ReadFrame \/ ENABLED DeliverEval \/ ENABLED DeliverCtx
   \/ ENABLED ReaderFin
-  \/ ENABLED Watcher \/ ENABLED Tail1
+  \/ ENABLED Watcher \/ ENABLED Tail1 \/ ENABLED Tail2
+\* (the final frame has left the server although the request has not ended:
+\* net/http gave up waiting, OverrunN)
+TrailerOut == pc["h"] \in {"tl2", "done"} /\ flushed /\ ~writeFailed
 C05_NoStuck ==
-  ((cctx # "live") \/ (pc["h"] = "done" /\ closeSend)) => (~ClientParked \/ Progress)
+  ((cctx # "live") \/ (pc["h"] = "done" /\ closeSend) \/ TrailerOut) => (~ClientParked \/ Progress)
 \* C05, liveness form: once the context is done, or the handler has finished
 \* and the client has closed its send side (so that net/http lets the reply
 \* out), every client operation in progress returns
